@@ -45,10 +45,15 @@ type Scn struct {
 	HoldMS     int    `json:"hold_ms"`
 	Outage     [2]int `json:"outage_ms"` // active-check scenarios: upstream 0 refuses during [from,to)
 	MaxFailing int    `json:"max_failing_dials"`
-	Peers      int    `json:"peers_of_upstream0,omitempty"` // 2: upstream 0 dials two addresses (every connection goes to both)
-	V6         bool   `json:"ipv6_upstreams,omitempty"`     // the upstreams are IPv6 literals
+	Peers      int    `json:"peers_of_upstream0,omitempty"`        // 2: upstream 0 dials two addresses (every connection goes to both)
+	V6         bool   `json:"ipv6_upstreams,omitempty"`            // the upstreams are IPv6 literals
 	MaxConns0  int    `json:"max_connections_upstream0,omitempty"` // an explicit limit on upstream 0 only; upstream 1 takes unhealthy_connection_count as its limit
-	SlowFail   bool   `json:"slow_fail,omitempty"`          // a failing dial may also fail only after 300 ms (e.g. a handshake that times out), so that dials to one peer overlap
+	// ReloadMS: at this time the configuration is reloaded the way caddy does it: a second
+	// instance of the same server is provisioned under a new context, then the old context is
+	// cancelled (its modules are cleaned up); later arrivals are handled by the new instance.
+	// Upstream state (failures, open connections, health) lives on the shared peers and carries over
+	ReloadMS int  `json:"reload_ms,omitempty"`
+	SlowFail bool `json:"slow_fail,omitempty"` // a failing dial may also fail only after 300 ms (e.g. a handshake that times out), so that dials to one peer overlap
 }
 
 type vclock struct{}
@@ -73,6 +78,7 @@ type connRec struct {
 }
 
 type result struct {
+	unloadAt    int64 // when the old instance was unloaded (reload scenarios)
 	out         vsched.Outcome
 	mu          sync.Mutex
 	dials       []dialRec
@@ -120,7 +126,6 @@ func execute(x *explore.Exec, sc *Scn) *result {
 	failing := 0
 	res.out = vsched.Run(x, vsched.Options{Horizon: 60000, Trace: trace}, func() {
 		logger := zap.New(core, zap.WithClock(vclock{}))
-		ctx, cancel := caddy.NewContext(caddy.Context{Context: context.Background()})
 		nw := vnet.NewNet()
 		vnet.Current = nw
 		defer func() { vnet.Current = nil }()
@@ -187,16 +192,35 @@ func execute(x *explore.Exec, sc *Scn) *result {
 			px["health_checks"] = hc
 		}
 		routes := []map[string]any{{"handle": []map[string]any{px}}}
-		srv := &layer4.Server{}
-		if err := json.Unmarshal(hm.J(routes), &srv.Routes); err != nil {
-			panic(err)
+		mk := func() (*layer4.Server, context.CancelFunc) {
+			ctx, cancel := caddy.NewContext(caddy.Context{Context: context.Background()})
+			srv := &layer4.Server{}
+			if err := json.Unmarshal(hm.J(routes), &srv.Routes); err != nil {
+				panic(err)
+			}
+			if err := srv.Provision(ctx, logger); err != nil {
+				panic(err)
+			}
+			return srv, cancel
 		}
 		res.provisionAt = vsched.NowNS()
-		if err := srv.Provision(ctx, logger); err != nil {
-			panic(err)
-		}
+		srv, cancel := mk()
 		prev := 0
+		reloaded := false
 		for i, at := range sc.Arrivals {
+			if sc.ReloadMS > 0 && !reloaded && at >= sc.ReloadMS {
+				vtime.Sleep(time.Duration(sc.ReloadMS-prev) * time.Millisecond)
+				prev = sc.ReloadMS
+				reloaded = true
+				srv2, cancel2 := mk()
+				// caddy starts the new configuration first and unloads the old one afterwards
+				vtime.Sleep(20 * time.Millisecond)
+				prev += 20
+				res.unloadAt = vsched.NowNS()
+				cancel() // the old instance's context: its checker stops, its modules are cleaned up
+				srv, cancel = srv2, cancel2
+			}
+			srv := srv
 			vtime.Sleep(time.Duration(at-prev) * time.Millisecond)
 			prev = at
 			cl, sv := vnet.Pipe(fmt.Sprintf("client%d", i), fmt.Sprintf("server%d", i), vnet.TCP("192.0.2.9", 40000+i), vnet.TCP("10.0.0.1", 443))
@@ -451,6 +475,13 @@ func check(x *explore.Exec, sc *Scn, r *result) {
 		if c.Err == "" {
 			x.Fail("failed-without-error", "connection %d was never connected to an upstream but Handle returned no error; %s", i, desc())
 		}
+		// a connection that is waiting for its next attempt when its instance is unloaded gives up
+		// at that moment (the retry wait selects on the instance's context)
+		reloadAt := r.unloadAt
+		if sc.ReloadMS > 0 && c.Arrive < reloadAt && c.ReturnAt >= reloadAt && c.ReturnAt <= reloadAt+1000 {
+			x.Observe("retry-ended-by-reload")
+			continue
+		}
 		// it gave up: in every round in which it made no attempt, no upstream was available
 		for j := attempts[i]; ; j++ {
 			tj := c.Arrive + int64(j)*interval
@@ -636,6 +667,27 @@ func scenarios(tier string, yield0 func(any) bool) {
 			}
 		}
 	}
+	// a configuration reload while upstream state is live: remembered failures, open connections
+	// and active-check verdicts established under the old instance hold under the new one
+	for _, td := range []int{0, 1000} {
+		for _, arr := range [][]int{{0, 520, 2700}, {0, 130, 2160, 2700}} {
+			for _, rl := range []int{100, 400} {
+				if !yield(&Scn{FailDurMS: 2000, MaxFails: 1, TryDurMS: td, TryIntMS: 250, Arrivals: arr, MaxFailing: 2, ReloadMS: rl}) {
+					return
+				}
+			}
+		}
+	}
+	for _, lim := range [][2]int{{1, 0}, {0, 1}} {
+		if !yield(&Scn{TryDurMS: 0, TryIntMS: 250, MaxConns: lim[0], Unhealthy: lim[1], Arrivals: []int{0, 300, 1500}, HoldMS: 1000, ReloadMS: 100}) {
+			return
+		}
+	}
+	for _, rl := range []int{300, 1300, 2600} {
+		if !yield(&Scn{ActiveMS: 1000, TryDurMS: 0, TryIntMS: 250, Arrivals: []int{200, 700, 1200, 1700, 2700, 3200, 4200}, Outage: [2]int{500, 2500}, ReloadMS: rl}) {
+			return
+		}
+	}
 	// active health checks with a scripted outage of upstream 0
 	for _, out := range [][2]int{{500, 2500}, {0, 1200}, {1500, 1600}} {
 		if !yield(&Scn{ActiveMS: 1000, TryDurMS: 0, TryIntMS: 250, Arrivals: []int{200, 700, 1200, 2700, 3200, 4200}, Outage: out}) {
@@ -671,7 +723,7 @@ func main() {
 	runner.Main(&runner.Harness{
 		ID:    "C11",
 		Level: "model_checking",
-		Rule:  "proxy handler with two single-peer upstreams (and a family in which upstream 0 has two dial addresses) and the 'first' policy: settings fail_duration {0,2 s} x max_fails {0,1,2} x try_duration {0,1 s} x try_interval {250,400 ms} x 6 arrival patterns (1-5 connections) with EVERY success/failure vector of the dials (up to 3, thorough 5, failing dials; in one family a failing dial may also fail only after 300 ms, so that dials to one peer overlap); max_connections / unhealthy_connection_count {1,2} with overlapping 1 s connections; active checks (1 s) with scripted outages, alone and together with passive failure tracking (fail_duration 0.7/2 s, max_fails 1/2); x every interleaving within the delay budget. A reference model (failure timestamps per peer, open connections per upstream, active-check verdicts) replays the same dial outcomes and predicts every dial's target and every connection's fate and give-up time",
+		Rule:  "proxy handler with two single-peer upstreams (and a family in which upstream 0 has two dial addresses) and the 'first' policy: settings fail_duration {0,2 s} x max_fails {0,1,2} x try_duration {0,1 s} x try_interval {250,400 ms} x 6 arrival patterns (1-5 connections) with EVERY success/failure vector of the dials (up to 3, thorough 5, failing dials; in one family a failing dial may also fail only after 300 ms, so that dials to one peer overlap); max_connections / unhealthy_connection_count {1,2} with overlapping 1 s connections; active checks (1 s) with scripted outages, alone and together with passive failure tracking (fail_duration 0.7/2 s, max_fails 1/2); x every interleaving within the delay budget. A reference model (failure timestamps per peer, open connections per upstream, active-check verdicts) replays the same dial outcomes and predicts every dial's target and every connection's fate and give-up time; configuration reloads (a second instance provisioned, the old one unloaded 20 ms later) while failures are remembered, connections are open or an outage is being tracked by the active checker: upstream state carries over, a connection waiting to retry under the unloaded instance gives up at that moment",
 		Assumptions: []string{
 			"arrival instants are chosen so that no dial coincides with a failure's expiry instant",
 			"timing clauses are only asserted on executions without timer deviations",
